@@ -10,7 +10,7 @@ cap               readBody_isSome_iff_admits, crypt_handler_runs_only_if_admitte
 flush             flush_partial_write_is_ciphertext_prefix, flush_complete_write
 concurrency       Conc.stepPc_good, Conc.step_inv, Conc.run_inv, Conc.init_inv,
                   Conc.concurrent_outcome_is_the_attempts_in_some_order, Conc.concurrent_acceptance_independent_of_schedule,
-                  Conc.concurrent_jwt_outcome_is_sequential
+                  Conc.concurrent_jwt_outcome_is_sequential, Conc.incr_steps_are_the_accesses
 -/
 import GoZero.C18.PropsR5
 namespace GoZero.C18
@@ -274,6 +274,15 @@ theorem concurrent_jwt_outcome_is_sequential {V : Type} (reqs : List (Req (List 
 private def exReqs : List (Req Unit) :=
   [{ verify := fun s => if s = "cur" then .tok true none else .err, secret := "cur", prev := "old" },
    { verify := fun s => if s = "old" then .tok true none else .err, secret := "cur", prev := "old" }]
+
+/-- the three steps of `incrementCount` in the interleaving model do what the accesses (tie_incrementCountEffects) say:
+clear iff expired, then increment the cell when the (possibly just cleared) map has it, store (s, 1) otherwise -/
+theorem incr_steps_are_the_accesses {C : Type} (req : Req C) (e1 e2 e3 : Bool) (cs : List (String × Nat)) (s : String)
+    (r : Parsed C) :
+    (stepPc req e3 (stepPc req e2 (stepPc req e1 cs (.incrReset s r)).1 (stepPc req e1 cs (.incrReset s r)).2).1
+        (stepPc req e2 (stepPc req e1 cs (.incrReset s r)).1 (stepPc req e1 cs (.incrReset s r)).2).2)
+      = ((if (if e1 then [] else cs).any (·.1 = s) then bump (if e1 then [] else cs) s else store (if e1 then [] else cs) s),
+         .done r) := rfl
 
 /-- two requests; the second overtakes the first between its two loads and resets the map: both still get their outcome
 (and the first one's increment, read before the reset, lands in the new map) -/
